@@ -31,7 +31,9 @@ class Stream:
     """One correspondence stream: cases run by harness mode `mode` and by Gallina function `runner`."""
     def __init__(self, name, mode, imports, runner, gen, oracle=None, nontrivial=None, as_limit_gb=None,
                  shard=400, rust_shards=1, scope="N_scope", canon=None, reference=False,
-                 canon_case=None, post=None, post_runner=None):
+                 canon_case=None, post=None, post_runner=None, measure=None):
+        # measure(case, raw_impl_line) -> dict of counters summed into the evidence (what a case actually covered)
+        self.measure = measure
         # canon_case(case, line): canonicalisation that needs the case (e.g. keys -> ranks)
         # post(case, raw_impl_line) -> list of Gallina terms (or None entries) handed to post_runner, a verified checker
         # evaluated inside Coq on what the implementation produced; every answer must be "ok"
@@ -180,6 +182,12 @@ def run_property(spec, tier, seed):
                     broken.append("checker evaluation (%s): %s" % (st.name, str(e)[:300]))
         stats["evaluations"] += len(cases)
         stats["streams"][st.name] = {"cases": len(cases), "kinds": kinds}
+        if st.measure:
+            tot = {}
+            for i, c in enumerate(cases):
+                for k, v in (st.measure(c, impl[i]) or {}).items():
+                    tot[k] = tot.get(k, 0) + v
+            stats["streams"][st.name]["measured"] = tot
         for c in cases[:2] + cases[-1:]:
             stats["samples"].append({"stream": st.name, "case": c.rust[:300]})
     stats["distinct_nontrivial"] = len(seen_nontrivial)
